@@ -12,7 +12,15 @@ def extra(work, v, thorough):
     storelib.report(v, work, "C06", tf, res)
     if res["div"]:
         print("note: %d Bloom filter histories leave Bloom.tla (model divergence, not a verdict)" % res["div"])
-    return {"bloom_states": mc.distinct, "bloom_transitions": mc.generated, "bloom_histories": res["traces"], "bloom_calls_compared": res["ops"],
+    # entry pool: the life of one entry object between the building and the application of its events
+    # (PoolWheel.tla). The repaired design holds; the design before D22 must violate both invariants.
+    pw = storelib.tlc_mc(work, "PoolWheelMC.cfg", module="PoolWheel", tag="poolwheel")
+    for cfg, inv in (("PoolWheelMC_d22.cfg", "FreeNotLinked"), ("PoolWheelMC_d22b.cfg", "NoTtlNeverExpired")):
+        bad = vlib.run_tlc(work, "PoolWheel", cfg, workers=2, timeout=300, tag=cfg[:-4])
+        if bad.violation != inv:
+            raise vlib.MachineryError("PoolWheel.tla %s: expected a violation of %s (D22), got %r" % (cfg, inv, bad.violation))
+    return {"poolwheel_states": pw.distinct, "poolwheel_design_before_D22_violates": ["FreeNotLinked", "NoTtlNeverExpired"],
+            "bloom_states": mc.distinct, "bloom_transitions": mc.generated, "bloom_histories": res["traces"], "bloom_calls_compared": res["ops"],
             "bloom_histories_leaving_the_spec": res["div"], "_states": mc.distinct, "_trans": mc.generated, "_traces": res["traces"]}
 
 PLAN = {
